@@ -20,6 +20,7 @@ const childEnv = "VERIF_C11_CHILD"
 type childReply struct {
 	Outcome *outcome      `json:"outcome,omitempty"`
 	Micro   *microOutcome `json:"micro,omitempty"`
+	Server  *srvOutcome   `json:"server,omitempty"`
 	Err     string        `json:"err,omitempty"`
 }
 
@@ -36,6 +37,12 @@ func childMain() {
 				rep.Err = "bad case: " + e.Error()
 			} else if c.Kind == "c" {
 				rep.Micro = runMicro(&c)
+			} else if c.Kind == "s" {
+				if o, e := runServerCase(&c); e != nil {
+					rep.Err = e.Error()
+				} else {
+					rep.Server = o
+				}
 			} else if o, e := runCase(&c); e != nil {
 				rep.Err = e.Error()
 			} else {
